@@ -12,7 +12,7 @@ use imara_diff::intern::InternedInput;
 use serde::{Deserialize, Serialize};
 use std::collections::{BTreeMap, HashSet};
 use std::sync::atomic::{AtomicU64, Ordering};
-use vkit::{bad, bytes::escape, ok, ok_trivial, Opts, Run, Verdict, B};
+use vkit::{bytes::escape, ok, ok_trivial, Opts, Run, Verdict, B};
 
 #[derive(Clone, Copy, PartialEq, Eq, Hash, PartialOrd, Ord, Debug)]
 enum Eol {
@@ -274,6 +274,19 @@ fn check_triple(base: &[u8], ours: &[u8], theirs: &[u8], cfgs: &[Cfg], merges: &
                 }
             }
             if let Some(l) = lines_of(&out).find(|l| !allowed.contains(l)) {
+                // failure shape of its own: an unterminated last line glued to the line written after it
+                let unterminated = [base, ours, theirs].into_iter().filter_map(|t| lines_of(t).last()).filter(|l| !l.ends_with(b"\n"));
+                for u in unterminated {
+                    if l.len() > u.len() && l.starts_with(u) && allowed.contains(&l[u.len()..]) {
+                        return Err(format!(
+                            "{name}-joined-line: line \"{}\" glues the unterminated line \"{}\" to the following line (diff3 rendering \"{}\") {}",
+                            escape(l),
+                            escape(u),
+                            escape(&reference),
+                            show(cfg, &out, res)
+                        ));
+                    }
+                }
                 return Err(format!(
                     "{name}-foreign-line: line \"{}\" is not in the base, not in {name} and not a conflict-free contribution (diff3 rendering \"{}\") {}",
                     escape(l),
@@ -318,9 +331,10 @@ pub fn run(run: &'static Run) {
     run.rule(
         "texts = sequences of one-letter lines, each with terminator LF | CRLF | none (last line only). \
          sub `triples`: base = every line sequence over {a,b,c} of length 0..=3 in formats {all LF, all CRLF} x {final newline, none} \
-         (+ thorough: first line terminated differently from the rest); ours = every text within N edits of the base, theirs likewise, \
+         (+ thorough: first line terminated differently from the rest); ours = every text within 2 edits of the base, theirs likewise, \
          edit = insert a line (ours: x|z|a, theirs: y|z|a) at any position, delete a line, replace a line's letter, toggle the final \
-         newline, flip one line's terminator LF<->CRLF; quick: N=2 for base length<=2 and N=1 for length 3; thorough: N=2 everywhere. \
+         newline, flip one line's terminator LF<->CRLF; each side at most 2 edits; total edits (ours+theirs) <= 4 for base length 0..=1, \
+         quick: <= 3 for length 2 and <= 2 for length 3; thorough: <= 4 for length 2 and <= 3 for length 3. \
          Every triple is merged under styles {merge,diff3,zdiff3} x marker sizes {1,7,20} (labels on for odd sizes, plus size 7 without \
          labels) and resolutions {ours,theirs,union}, diff algorithm Myers (thorough: + Histogram). \
          sub `identities`: base length 0..=3 (thorough 0..=4), side within 2 edits (letters x|a); merges (base,base,side), (side,base,base), \
@@ -344,14 +358,23 @@ pub fn run(run: &'static Run) {
         Opts::default().chunk(1 << 14).watchdog(5.0),
         |emit| {
             bases(b"abc", 3, !quick, |base, dom| {
-                let n = if quick && base.len() >= 3 { 1 } else { 2 };
-                let o = sides(base, b"xza", dom, true, n);
-                let t = sides(base, b"yza", dom, true, n);
+                // bound on the total number of edits (ours + theirs); each side has at most 2
+                let max_total = match (quick, base.len()) {
+                    (_, 0..=1) => 4,
+                    (true, 2) => 3,
+                    (true, _) => 2,
+                    (false, 2) => 4,
+                    (false, _) => 3,
+                };
+                let o = sides(base, b"xza", dom, true, 2);
+                let t = sides(base, b"yza", dom, true, 2);
                 let b = B(render(base));
                 let mut pairs: Vec<(usize, usize, usize)> = Vec::with_capacity(o.len() * t.len());
                 for (i, (d1, _)) in o.iter().enumerate() {
                     for (j, (d2, _)) in t.iter().enumerate() {
-                        pairs.push((d1 + d2, i, j));
+                        if d1 + d2 <= max_total {
+                            pairs.push((d1 + d2, i, j));
+                        }
                     }
                 }
                 pairs.sort();
